@@ -77,8 +77,8 @@ CLAIMED = {
     ),
     "C18": dict(
         technique="model-based property testing with rapid against a map model (both transaction implementations); harness-owned interleaving of concurrent transactions by parking them inside handlers; crash tracing for unrecoverable runtime errors",
-        text=("Generated call sequences (Get/GetHandler/Set/SetHandler with succeeding, failing and aborting handlers, Commit, Commit under an already cancelled context, Abort; read-write and read-only modes) on the real in-memory transactions (via the verif hook) and on the serial fallback are checked against a map model: "
-              "one result per call in order with matching unique ids, read-your-writes across transactions, handler errors, no effect after abort, store released and equal to the model afterwards. An isolation leg parks 2-6 concurrent transactions "
+        text=("Generated call sequences (Get/GetHandler/Set/SetHandler with succeeding, failing, aborting and result-checking handlers, records whose contents cannot be produced, Commit, Commit under an already cancelled context, Abort; read-write and read-only modes) on the real in-memory transactions (via the verif hook) and on the serial fallback are checked against a map model: "
+              "one result per call in order with matching unique ids, read-your-writes across transactions, handler errors, each handler handed the result Commit reports, no effect after abort, store released and equal to the model afterwards. A stale leg ends an already ended transaction again while a later one is open. An isolation leg parks 2-6 concurrent transactions "
               "inside handlers and checks that never two are inside and nothing is torn. Sampled exploration; the isolation schedule is owned only at handler granularity."),
         note="a test-binary death (fatal error such as a double unlock) is reported as a violation with the traced history; Commit's return value for an aborted transaction is not asserted",
     ),
@@ -97,8 +97,8 @@ CLAIMED = {
     ),
     "C11": dict(
         technique="property-based testing with rapid + exhaustive enumeration of fault sites (every source read, every cache-store call) per case; harness-gated source reads own the schedule of the concurrent fill (plus a -race leg)",
-        text=("Per generated (size, location, store kind, seekability) every source Read and every cache-store call of the fault-free fill is failed in turn, followed by fault-free re-opens: no open may ever return bytes that differ from the source without an error. "
-              "Concurrent first opens of one file run with every source Read gated: the copy is paused at each chunk boundary while the others run; at most one read in flight, all opens return, all successful opens read complete bytes."),
+        text=("Per generated (size, location, store kind, seekability) every source Read and every cache-store call of the fault-free fill is failed in turn (once, or 'sticky': what broke stays broken, incl. the source's Close and Open, with further opens attempted before the repair), followed by fault-free re-opens: no open may ever return bytes that differ from the source without an error. "
+              "Concurrent first opens of one file run with every source Read gated: the copy is paused at each chunk boundary while the others run, in a third of the cases with a source read failing meanwhile and a cache store that cannot remove the partial file; at most one read in flight, all opens return, all successful opens read complete bytes."),
         note="goroutines blocked on the path mutex are not observable: a drawn settle delay lets them run before the paused copy is released; fault sites are exhaustive per case, cases are sampled",
     ),
     "C12": dict(
@@ -110,7 +110,7 @@ CLAIMED = {
     "C13": dict(
         technique="property-based testing with rapid + enumeration of every cut point / destination-call fault per archive; the harness owns the archive reader, the destination calls and (verif hook) three race points inside tar; free-running stress and burst legs; model-based checks of pubsub and bufferPool",
         text=("Archives are streamed block by block through a reader the harness parks and faults (truncate, error, cancel) while Open calls are launched against entries not yet reached, half-written (destination write held), written, directories and missing names; "
-              "every cut block and every destination call index is enumerated per archive; tar's reader/announcer goroutines are parked at verifPoint markers while everything is opened; the same cases also run free (60 repetitions). A successful Open must deliver the complete bytes, "
+              "every cut block and every destination call index (one failing call, or every call from it on) is enumerated per archive; the held destination write may fail when it is released (after a cancel); tar's reader/announcer goroutines are parked at verifPoint markers while everything is opened; the same cases also run free (60 repetitions). A successful Open must deliver the complete bytes, "
               "and Done / every Open must return once the stream ended, failed or was cancelled. pubsub and bufferPool are driven directly against models (plus a barrier burst hunting a lost wake-up)."),
         note="liveness is observed as 'returned within the watchdog'; interleavings inside a destination call or between points the harness does not own are only sampled by the stress legs",
     ),
